@@ -195,7 +195,7 @@ def plan(S, prop, mode, tier, avoid):
         ops = []
         for _ in range(r.randrange(1, 6)):
             k = wpick(r, [("i2s", 4), ("rt", 6), ("jac", 1.5), ("s2i_far", 1), ("abort", 1.2), ("nan", 0.8),
-                          ("crpix", 1)])
+                          ("crpix", 1), ("s2i_given", 1.2)])
             op = {"k": k, "c": c}
             if k == "i2s":
                 sh = _shape(r)
@@ -207,7 +207,8 @@ def plan(S, prop, mode, tier, avoid):
                 sh = _shape(r)
                 if find and sh == "arr16" and not chance(r, 0.2):
                     sh = "arr3"
-                op.update({"shape": sh, "pts": _pts(r, hdr, _n_of(sh)), "distort": chance(r, 0.85), "find": find})
+                op.update({"shape": sh, "pts": _pts(r, hdr, _n_of(sh)), "distort": chance(r, 0.85), "find": find,
+                           "buf": chance(r, 0.5)})
             elif k == "jac":
                 sh = _shape(r)
                 op.update({"shape": sh, "pts": _pts(r, hdr, _n_of(sh)), "distort": chance(r, 0.8),
@@ -216,6 +217,11 @@ def plan(S, prop, mode, tier, avoid):
                 n = r.randrange(1, 4)
                 op.update({"lonlat": [[round(r.uniform(0, 360), 5), round(r.uniform(-90, 90), 5)] for _ in range(n)],
                            "shape": "scalar" if n == 1 and chance(r, 0.5) else "arr", "distort": chance(r, 0.7)})
+            elif k == "s2i_given":
+                # a sky position that did NOT come out of image2sky: the reference position itself (bit for bit), or
+                # a catalogue position (6 decimals) inside the image; scalar or the middle element of an array
+                op.update({"where": pick(r, ["crval", "crval", "rounded"]), "pts": _pts(r, hdr, 3), "distort": chance(r, 0.85),
+                           "shape": pick(r, ["scalar", "arr3"])})
             elif k == "abort":
                 op.update({"how": pick(r, ["find_len_mismatch", "i2s_len_mismatch", "nofind_len_mismatch"]),
                            "pts": _pts(r, hdr, 3)})
@@ -330,6 +336,7 @@ def execute(script, run, env):
     nofind_err = []
     undist_err = []
     bystanders = []
+    skybufs = {}
     pending = []        # results of the previous operation: the caller edits them in place before the next one
     for i, op in enumerate(script["ops"]):
         run.step = i
@@ -436,6 +443,16 @@ def execute(script, run, env):
                     run.fault("lazy_inverse_fit_built_late" if H.ncalls > 1 else "lazy_inverse_fit_built_first")
                 lon_a, lat_a = lon, lat
                 g2 = []
+                if op.get("buf") and shape != "scalar" and not c15:
+                    # the caller keeps ONE pair of request buffers per catalogue length and refills them in place
+                    nb = int(np.size(lon))
+                    if nb not in skybufs:
+                        skybufs[nb] = (np.empty(nb), np.empty(nb))
+                    else:
+                        run.fault("request_buffers_refilled_in_place")
+                    skybufs[nb][0][:] = lon
+                    skybufs[nb][1][:] = lat
+                    lon_a, lat_a = skybufs[nb]
                 if c15 and shape != "scalar":
                     lon_a, g1_ = present.make(np.asarray(lon), op.get("px"))
                     lat_a, g2_ = present.make(np.asarray(lat), op.get("py"))
@@ -468,6 +485,46 @@ def execute(script, run, env):
                         warnings.simplefilter("ignore")
                         xu, yu = H.fresh().sky2image(lon, lat, distort=False, find=False)
                     undist_err.append(float(np.max(np.hypot(np.asarray(xu) - np.asarray(x), np.asarray(yu) - np.asarray(y)))))
+        elif k == "s2i_given":
+            pts = np.array(op["pts"], dtype="f8")
+            with warnings.catch_warnings():
+                warnings.simplefilter("ignore")
+                lo3, la3 = ref_forward(hdr, pts[:, 0], pts[:, 1], op["distort"])
+            lo3 = np.round(np.asarray(lo3, dtype="f8"), 6) % 360.0
+            la3 = np.clip(np.round(np.asarray(la3, dtype="f8"), 6), -90, 90)
+            if op["where"] == "crval":
+                lo3[1], la3[1] = float(hdr["crval1"]) % 360.0, float(hdr["crval2"])
+            if op["shape"] == "scalar":
+                args = (float(lo3[1]), float(la3[1]))
+                H.last_shape = "scalar"
+            else:
+                args = (lo3.copy(), la3.copy())
+                H.last_shape = "array"
+            back = judged_call("s2i", args, {"distort": op["distort"], "find": True},
+                               "sky2image(%s, distort=%r, find=True)" % (_short(args), op["distort"]))
+            if back is None or not judge:
+                continue
+            run.checks += 1
+            xb = np.atleast_1d(np.asarray(back[0], dtype="f8"))
+            yb = np.atleast_1d(np.asarray(back[1], dtype="f8"))
+            tl = np.atleast_1d(np.asarray(args[0], dtype="f8"))
+            tb = np.atleast_1d(np.asarray(args[1], dtype="f8"))
+            nx_, ny_ = hdr["naxis1"], hdr["naxis2"]
+            inimg = np.isfinite(xb) & np.isfinite(yb) & (xb >= 1) & (xb <= nx_) & (yb >= 1) & (yb <= ny_)
+            if inimg.any() and _poleclass(tb) != "<1e-3deg":
+                with warnings.catch_warnings():
+                    warnings.simplefilter("ignore")
+                    fl, fb = ref_forward(hdr, xb[inimg], yb[inimg], op["distort"])
+                d = np.asarray(sep_deg(np.asarray(fl, dtype="f8"), np.asarray(fb, dtype="f8"), tl[inimg], tb[inimg]), dtype="f8")
+                pixscale = math.sqrt(abs(hdr["cd1_1"] * hdr["cd2_2"] - hdr["cd1_2"] * hdr["cd2_1"]))
+                tol = 1e-6 * pixscale + 1e-12
+                run.margin("wcs.inverse_of_given", float(np.max(d)) / tol)
+                if not np.all(d <= tol):
+                    j = int(np.argmax(d))
+                    run.fail("wcs.inverse_of_given", dict(feats, where=op["where"], distort=op["distort"]),
+                             "sky2image(%r, %r, find=True) = (%r, %r); that pixel maps to a position %.3e deg (= %.3e pixel) away"
+                             % (tl[inimg][j], tb[inimg][j], xb[inimg][j], yb[inimg][j], float(d[j]), float(d[j]) / pixscale))
+                    return
         elif k == "s2i_far":
             ll = np.array(op["lonlat"], dtype="f8")
             if op["shape"] == "scalar":
